@@ -307,6 +307,21 @@ def run(ck: vlib.Check):
     ck.cov["reader_loop_variant_of_working_tree"] = variant
     ck.cov["applicable_zero_event_theorem"] = ("C03_zero_event_file_raises (round trip refuted for the zero-event file)"
                                                if variant == "pinned-loop" else "C03_zero_event_file_repaired")
+    # the same reads under `python -O` (PYTHONOPTIMIZE=1): an interpreter option must not change what is read
+    ocalls = [dict(c, id=k, native_so=None, guard=False, delay_seed=None) for k, c in enumerate(calls[:6])]
+    ojp = ck.bdir / "jobs_O.json"
+    ojp.write_text(json.dumps({"calls": ocalls, "guard_s": 60}))
+    rc_o, so_o, se_o = vlib.run_impl_script("c03_impl.py", [ojp], timeout=600, env_extra={"PYTHONOPTIMIZE": "1"})
+    if rc_o != 0:
+        ck.tie_broken("correspondence", "implementation run under python -O", (se_o or so_o)[-800:])
+    else:
+        for c, r, ro in zip(calls[:6], impl[:6], json.loads(so_o)["results"]):
+            ck.case(["file-O", c["id"]])
+            if (r["outcome"], r.get("values")) != (ro["outcome"], ro.get("values")):
+                ck.violation("C03:python-O", f"open_raw(file).arrays(...) under `python -O` / PYTHONOPTIMIZE=1: {ro['outcome']} {ro.get('exc', '')} - the same call "
+                             f"in a normal interpreter: {r['outcome']} (reads that sit inside `assert` statements are skipped when asserts are stripped)",
+                             {"kind": "file", "words": files[meta[c['id']][0]][1] if meta[c['id']][0] != "zero" else wz, "call": c, "python": "-O"})
+                break
     coq_cases = []
     permuted = 0
     for c, (fi, mask, pb), r, m in zip(calls, meta, impl, mans):
